@@ -18,7 +18,7 @@ import re
 _FLIP = {ast.Lt: ast.Gt, ast.Gt: ast.Lt, ast.LtE: ast.GtE, ast.GtE: ast.LtE, ast.Eq: ast.Eq, ast.NotEq: ast.NotEq}
 
 
-_CONST_LIKE = re.compile(r"^(?:[A-Za-z_]\w*\.)*[A-Z][A-Z0-9_]*$")
+_CONST_LIKE = re.compile(r"^(?:[A-Za-z_]\w*\.)*_*[A-Z][A-Z0-9_]*$")
 
 
 def is_const_text(t: str) -> bool:
